@@ -19,7 +19,12 @@ RULE = ("Two feature files on disk (features/f0.feature, features/f1.feature in 
         "<= 2 (thorough: <= 3, on the quick pairs) non-pass slots, stale file present; plus, on 3 (thorough: 6) pairs, the "
         "same programs rendered with ALL Scenario / Scenario Outline / Rule / Examples titles identical (namesake plain "
         "scenarios, namesakes in a feature and its rule, in two rules, same-named outlines whose rows get identical "
-        "generated names), <= 2 (thorough: <= 3) non-pass slots so that namesakes differ in success. Run 1 = real Configuration "
+        "generated names), <= 2 (thorough: <= 3) non-pass slots so that namesakes differ in success; plus 22 six-to-eight-slot "
+        "shapes (used for both files) in which one bystander element carries a tag the selection code treats specially - "
+        "@setup / @teardown on a plain scenario (first, middle, last), on an outline, on one Examples block, on a scenario "
+        "inside a rule - with each untagged slot unsuccessful in turn, fed back as '@rerun.txt' and as file:line "
+        "command-line arguments; there the second run must execute the listed scenarios plus, as "
+        "FeatureScenarioLocationCollector.build_feature documents, the @setup/@teardown ones, everything else skipped. Run 1 = real Configuration "
         "(-f rerun -o rerun.txt features), collect_feature_locations + parse_features on the files, formatters from "
         "make_formatters, ModelRunner with a fresh StepRegistry. Oracle: rerun.txt lists exactly file:line (line known "
         "from the renderer) of the scenarios whose final status is failed or error-class, in run order; none -> no file "
@@ -89,7 +94,7 @@ def fill(node, it):
     for x in node[3]:
         if x[0] == "S":
             k = next(it)
-            items.append(("S", ("x",) if k == "desel" else (), (STEP[k],)))
+            items.append(("S", tuple(x[1]) + (("x",) if k == "desel" else ()), (STEP[k],)))
         elif x[0] == "O":
             ks = [[next(it) for _ in rows] for _, rows in x[3]]
             anyd = any(k == "desel" for rk in ks for k in rk)
@@ -97,7 +102,7 @@ def fill(node, it):
             for (extags, _rows), rk in zip(x[3], ks):
                 blocks.append((extags, tuple((STEP[k],) + ((("x" if k == "desel" else "k"),) if anyd else ())
                                              for k in rk)))
-            items.append(("O", (P.PTAG,) if anyd else (), 1, tuple(blocks)))
+            items.append(("O", tuple(x[1]) + ((P.PTAG,) if anyd else ()), 1, tuple(blocks)))
         else:
             items.append(fill(x, it))
     return (node[0], node[1], node[2], tuple(items))
@@ -137,6 +142,46 @@ def build(shape0, shape1, kinds, cfault=None):
     paths = [p for p, _k, _i in P.walk_scenarios(prog)]
     assert len(paths) == len(kinds)
     return prog, paths
+
+
+# bystander-tag dimension: tags that the anchored selection code treats specially (runner_util.build_feature exempts
+# scenarios tagged @setup / @teardown from being marked skipped, as its docstring documents)
+SPECIAL_TAGS = ("setup", "teardown")
+
+
+def special_shapes():
+    """(tag, level, feature shape): one element carrying a special tag - a plain scenario (first / middle / last of 6),
+    a scenario outline with 2 rows (first / middle / last of 6 items), one of two Examples blocks of an outline, a
+    scenario inside a rule (first / second / last of 4) - next to >= 5 untagged scenario slots"""
+    for tag in SPECIAL_TAGS:
+        for t in (0, 2, 5):
+            yield tag, "scenario", _F(tuple(_S(tags=(tag,)) if i == t else _S() for i in range(6)))
+        for t in (0, 2, 5):
+            yield tag, "outline", _F(tuple(_O(ROWS2, tags=(tag,)) if i == t else _S() for i in range(6)))
+        for b in (0, 1):
+            blocks = [((tag,) if i == b else (), ROWS2) for i in (0, 1)]
+            yield tag, "examples", _F((_S(), P.O2(blocks), _S(), _S(), _S()))
+        for t in (0, 1, 3):
+            yield tag, "scenario@rule", _F((_S(), _S(), _R(tuple(_S(tags=(tag,)) if i == t else _S() for i in range(4)))))
+
+
+def special_of(prog):
+    """-> (exempt scenario paths, (tag, level) | None) for a program built from special_shapes()"""
+    exempt, what = set(), None
+    for p, kind, info in P.walk_scenarios(prog):
+        hit = [t for t in SPECIAL_TAGS if t in info["own"]]
+        if hit:
+            exempt.add(p)
+            node = P.get(prog, p[:2])
+            in_rule = node[0] == "R"
+            if in_rule:
+                node = node[3][p[2]]
+            if node[0] == "S":
+                level = "scenario"
+            else:
+                level = "outline" if hit[0] in node[1] else "examples"
+            what = (hit[0], level + ("@rule" if in_rule else ""))
+    return exempt, what
 
 
 _TITLE = re.compile(r"^(\s*(?:Scenario Outline|Scenario|Rule|Examples):).*$")
@@ -321,15 +366,18 @@ def elem_class(path, prog):
 
 # ------------------------------------------------------------------------------------------- the case function
 def rerun_case(case):
-    """case = (shape0, shape1, kinds, stale[, cfault[, dup]])   cfault = None | (container path, hook name);
-    dup = 1: all scenario / outline / rule / examples titles identical"""
+    """case = (shape0, shape1, kinds, stale[, cfault[, dup[, feed]]])   cfault = None | (container path, hook name);
+    dup = 1: all scenario / outline / rule / examples titles identical; feed = 1: the entries of the rerun file are given
+    to run 2 as file:line command-line arguments instead of '@rerun.txt'"""
     shape0, shape1, kinds, stale = case[:4]
     cfault = case[4] if len(case) > 4 else None
     dup = case[5] if len(case) > 5 else 0
+    feed = case[6] if len(case) > 6 else 0
     m = harness._imp()
     harness.reset_globals()
     prog, order = build(shape0, shape1, kinds, cfault)
     kind_of = dict(zip(order, kinds))
+    exempt, special = special_of(prog)
     faults = {p: k for p, k in kind_of.items() if k in ("hookb", "hooka")}
     v = []
     d = tempfile.mkdtemp(prefix="c17_", dir="/dev/shm" if os.path.isdir("/dev/shm") else None)
@@ -409,8 +457,10 @@ def rerun_case(case):
             for e in entries1:
                 if loc2path[e] not in listed:
                     listed.append(loc2path[e])
-            o2 = one_run(m, base + ["@" + RERUN], loc2path, faults, loc2cont, cfault)
-            hist = "run 2 on @%s (%s) kinds=%s cfault=%s" % (RERUN, entries1, list(kinds), cfault)
+            feed_args = ["%s:%d" % e for e in entries1] if feed else ["@" + RERUN]
+            o2 = one_run(m, base + feed_args, loc2path, faults, loc2cont, cfault)
+            hist = "run 2 on %s (%s) kinds=%s cfault=%s%s" % (" ".join(feed_args), entries1, list(kinds), cfault,
+                                                             " special=%s" % (special,) if special else "")
             if o2["feed_exc"]:
                 v.append(({"subcheck": "rerun.feedback", "clause": "exception", "exc": o2["feed_exc"].split(":")[0]},
                           "%s: reading the rerun file back raised %s; file:\n%s" % (hist, o2["feed_exc"], text1)))
@@ -421,8 +471,21 @@ def rerun_case(case):
             else:
                 nv = len(v)
                 sel = o2["selected"]
+                # scenarios tagged @setup/@teardown in a loaded feature stay selected, as build_feature documents
+                also = [p for p in order if p in exempt and p in sel and p not in listed]
+                leaked = []
                 for p in order:
                     is_sel = sel.get(p, False)              # a feature that is not even parsed selects nothing
+                    if p in also:
+                        if not is_sel:
+                            v.append(({"subcheck": "rerun.feedback", "clause": "exempt-tag-skipped",
+                                       "tag": special[0], "tag_on": special[1]},
+                                      "%s: %s:%d carries @%s but is marked should_skip" % (hist, path2loc[p][0],
+                                                                                         path2loc[p][1], special[0])))
+                        continue
+                    if special and p not in listed and is_sel:
+                        leaked.append(p)        # which ones leak may depend on set order: one aggregate violation
+                        continue
                     if p in listed and not is_sel:
                         v.append(({"subcheck": "rerun.feedback", "clause": "listed-not-selected",
                                    "elem": elem_class(p, prog)},
@@ -434,24 +497,31 @@ def rerun_case(case):
                                    "elem": elem_class(p, prog)},
                                   "%s: %s:%d is not listed but not marked should_skip" % (hist, path2loc[p][0],
                                                                                           path2loc[p][1])))
+                if leaked:
+                    v.append(({"subcheck": "rerun.feedback", "clause": "unlisted-selected", "bystander_tag": special[0],
+                               "tag_on": special[1]},
+                              "%s: scenarios without @setup/@teardown that are not listed are not marked should_skip: %s"
+                              % (hist, ["%s:%d" % path2loc[p] for p in leaked])))
                 st2 = o2["status"]
+                wanted = listed + also
                 # the second run is only judged when the selection was right (otherwise it repeats the same alarm);
                 # the statement does not fix an order for run 2: compared as multisets (each listed scenario once)
-                if len(v) == nv and sorted(o2["before"]) != sorted(listed):
-                    extra = [p for p in o2["before"] if p not in listed]
-                    lost = [p for p in listed if p not in o2["before"]]
+                if len(v) == nv and sorted(o2["before"]) != sorted(wanted):
+                    extra = [p for p in o2["before"] if p not in wanted]
+                    lost = [p for p in wanted if p not in o2["before"]]
                     clause = "executed-unlisted" if extra else "listed-not-executed" if lost else "executed-twice"
-                    cls = elem_class((extra or lost or listed)[0], prog)
+                    cls = elem_class((extra or lost or listed)[0], prog) if not special else "with-@%s" % special[0]
                     v.append(({"subcheck": "rerun.second-run", "clause": clause, "elem": cls},
-                              "%s: before_scenario called for %s, listed %s" % (hist, o2["before"], listed)))
-                want_calls = [c for c in o1["calls"] if c[0] in listed]
+                              "%s: before_scenario called for %s, listed %s (+ @setup/@teardown: %s)"
+                              % (hist, o2["before"], listed, also)))
+                want_calls = [c for c in o1["calls"] if c[0] in wanted]
                 if len(v) == nv and sorted(o2["calls"]) != sorted(want_calls):
                     v.append(({"subcheck": "rerun.second-run", "clause": "step-call-log"},
                               "%s: step calls %s, run-1 calls of the listed scenarios %s" % (hist, o2["calls"],
                                                                                             want_calls)))
                 if len(v) == nv:
                     for p in order:
-                        if p in listed:
+                        if p in wanted:
                             if st2.get(p) != st1[p]:
                                 v.append(({"subcheck": "rerun.second-run", "clause": "listed-status-differs",
                                            "elem": elem_class(p, prog), "status": str(st2.get(p))},
@@ -476,9 +546,15 @@ def rerun_case(case):
         if (0 < n_unsucc < len(order)) or (n_unsucc == 0 and stale):
             nt = digest(case)
         out = (tuple(sorted(set(st1.values()))), min(n_unsucc, 3), text1 is not None, bool(stale), o2 is not None,
-               cfault and (cfault[1], "feature" if len(cfault[0]) == 1 else "rule"), int(bool(dup)))
+               cfault and (cfault[1], "feature" if len(cfault[0]) == 1 else "rule"), int(bool(dup)),
+               special and special + (feed,))
+        # special-tag programs: what happens to the untagged unlisted scenarios is judged by the oracle, but a defect there
+        # may depend on set iteration order, so those scenarios stay out of the determinism digest
+        keep = set(order) if not special else set(p for p in order if p in exempt or st1.get(p) != "passed")
         dg = (text1, sorted(st1.items()), o1["calls"], o1["before"], o1["after"], o1["chooks"], sorted(o1["cstatus"].items()),
-              o2 and (sorted(o2["selected"].items()), sorted(o2["status"].items()), o2["calls"], o2["before"]), text2)
+              o2 and (sorted(x for x in o2["selected"].items() if x[0] in keep),
+                      sorted(x for x in o2["status"].items() if x[0] in keep),
+                      [c for c in o2["calls"] if c[0] in keep], [p for p in o2["before"] if p in keep]), text2)
         res = {"v": v, "nt": nt, "out": out, "dg": dg, "n": 1 if o2 is None else 2}
     finally:
         sys.stdout, sys.stderr = old_out, old_err
@@ -537,6 +613,25 @@ def cases(tier):
                 yield (s0, s1, kinds, 1, None, 1)
 
 
+def special_cases(tier):
+    """both files get the same special shape; one unsuccessful scenario per file at every untagged slot in turn;
+    fed back as '@rerun.txt' and as file:line arguments"""
+    kinds_fail = ("fail", "error") if tier == "quick" else ("fail", "error", "undef", "hooka")
+    for tag, level, shp in special_shapes():
+        prog = (shp, shp)
+        exempt, _what = special_of(prog)
+        slots = [p for p, _k, _i in P.walk_scenarios((shp,))]
+        free = [i for i, p in enumerate(slots) if p not in exempt]
+        n = len(slots)
+        for j, i in enumerate(free):
+            for kd in (kinds_fail if j == 0 else kinds_fail[:1]):
+                kinds = ["pass"] * (2 * n)
+                kinds[i] = kd
+                kinds[n + i] = kd
+                for feed in (0, 1):
+                    yield (shp, shp, tuple(kinds), 1, None, 0, feed)
+
+
 def run(ctx):
     pairs = QUICK_PAIRS if ctx.quick else THOROUGH_PAIRS
     ctx.bounds = {"feature_files": 2, "shape_pairs": len(pairs), "max_nonpass_scenarios": 2 if ctx.quick else 4,
@@ -547,10 +642,14 @@ def run(ctx):
                                            "19 pairs, <= 3 non-pass scenarios on the 11 quick pairs, <= 2 on the others",
                   "identical_titles": "%d pairs, <= %d non-pass scenarios, all Scenario/Outline/Rule/Examples titles equal"
                                       % ((len(DUP_PAIRS), 2) if ctx.quick else (len(DUP_PAIRS_THOROUGH), 3)),
+                  "special_bystander_tags": "@setup/@teardown on a scenario (3 positions), an outline (3 positions), an "
+                                            "Examples block (2), a scenario in a rule (3); both files; every untagged "
+                                            "slot unsuccessful in turn; fed back as @rerun.txt and as file:line arguments",
                   "executions": "a case with a rerun file counts 2 (run + re-run), otherwise 1"}
     ctx.sweep(rerun_case, cases(ctx.tier), chunk=16, name="run -> rerun.txt -> run")
+    ctx.sweep(rerun_case, special_cases(ctx.tier), chunk=8, name="bystanders tagged @setup/@teardown")
     kinds_seen = set()
-    for (statuses, _n, _f, _s, _second, _cf, _dup) in ctx.outcomes:
+    for (statuses, _n, _f, _s, _second, _cf, _dup, _sp) in ctx.outcomes:
         kinds_seen |= set(statuses)
     for need in ("passed", "failed", "error", "hook_error", "skipped"):
         ctx.guard(need in kinds_seen, "scenario status %s occurred in run 1" % need)
@@ -565,4 +664,10 @@ def run(ctx):
               "a container with a raising after-hook held unsuccessful scenarios and the file was fed back")
     ctx.guard(any(o[6] and o[4] and o[1] > 0 for o in ctx.outcomes),
               "identical titles: a file naming some namesake scenarios was fed back")
+    sps = set(o[7] for o in ctx.outcomes if o[7] and o[4])
+    for tag in SPECIAL_TAGS:
+        for level in ("scenario", "outline", "examples", "scenario@rule"):
+            for feed in (0, 1):
+                ctx.guard((tag, level, feed) in sps, "bystander tagged @%s on %s fed back (%s)"
+                          % (tag, level, "file:line arguments" if feed else "@rerun.txt"))
     ctx.guard(len(ctx.nt) >= (1000 if ctx.quick else 20000), "enough discriminating cases")
